@@ -42,7 +42,14 @@ func runParallel(fm *Frame, functions ...Callable) error {
 		go func(fm2 *Frame, function Callable, pexc *Exception) {
 			err := function.Call(fm2, NoArgs, NoOpts)
 			if err != nil {
-				*pexc = err.(Exception)
+				// Not all errors returned by Call are exceptions; for
+				// example, calling a closure with the wrong number of
+				// arguments returns a bare errs.ArityMismatch.
+				if exc, ok := err.(Exception); ok {
+					*pexc = exc
+				} else {
+					*pexc = NewException(err, fm2.traceback)
+				}
 			}
 			wg.Done()
 		}(fm.Fork(), function, &exceptions[i])
